@@ -2,6 +2,7 @@
 import re
 
 from ..core import (
+    is_try_residual,
     Site,
     callee_of,
     callee_is,
@@ -341,7 +342,7 @@ def _err_exits(b):
     for o in origins(b, {"l": 0, "p": []}, transparent=()):
         if o.kind == "agg" and o.data.get("path") == "core::result::Result" and o.data.get("variant") == "Err":
             out.append((o.site, "Err(..)", None))
-        elif o.kind == "call" and strip_generics(callee_name(o.data) or "").endswith("FromResidual::from_residual"):
+        elif o.kind == "call" and is_try_residual(o.data):
             out.append((o.site, "?", o.site))
         elif o.kind == "call" and "core::result::Result<" in b.ret_ty:
             nm = strip_generics(callee_name(o.data) or "")
